@@ -1,5 +1,5 @@
 """Front end: load the real source, locate functions and regions structurally."""
-import ast, hashlib, os
+import ast, hashlib, os, json
 
 REPO = os.environ.get('PYG_REPO', '/repo')
 SRCDIR = os.path.join(REPO, 'src', 'pyg_base')
@@ -26,6 +26,7 @@ class Mod:
         except SyntaxError as e:
             raise SelectorError('cannot parse %s: %s' % (self.path, e))
         self.sha = hashlib.sha256(self.text.encode()).hexdigest()
+        self.renamed = {}      # qualified function name -> {current local name: baseline name} where only locals were renamed
 
     def func(self, qual):
         """'dt_bump', 'Calendar.adjust', 'loops.__call__.wrapped' -> FunctionDef"""
@@ -43,6 +44,11 @@ class Mod:
             if found is None:
                 raise SelectorError('%s: no %s in %s' % (self.name, part, qual))
             node = found
+        if isinstance(node, (ast.FunctionDef, ast.AsyncFunctionDef)) and not getattr(node, '_names_restored', False):
+            node._names_restored = True
+            mp = restore_names(self.name, qual, node)
+            if mp:
+                self.renamed[qual] = mp
         return node
 
     def has_func(self, qual):
@@ -78,7 +84,9 @@ def module(name):
 
 
 def reset():
+    global _names
     _mods.clear()
+    _names = None
 
 
 def walk_no_defs(node):
@@ -135,3 +143,95 @@ def count_stmts(nodes):
             if isinstance(m, ast.stmt):
                 c += 1
     return c
+
+
+# ---------------------------------------------------------------------------------------------- tolerance to renamed locals
+# Sidecar contracts talk about locals by name (loop counters, accumulators).  A pure renaming of locals is a harmless edit; to keep
+# it from turning into UNDECIDED, the names a function binds are recorded at lock time together with a hash of the function with
+# its locals renamed to positional names.  If the current function has the same canonical hash but other names, it differs from the
+# baseline only by a renaming of locals, and the AST handed to the contracts gets the baseline names back.
+NAMES_FILE = os.path.join(os.path.dirname(os.path.dirname(os.path.abspath(__file__))), 'locks', 'names.json')
+_names = None
+
+
+def _bound_names(fdef):
+    """local names bound in fdef (not parameters), in order of first binding occurrence in a pre-order walk"""
+    params = {a.arg for a in fdef.args.posonlyargs + fdef.args.args + fdef.args.kwonlyargs}
+    if fdef.args.vararg:
+        params.add(fdef.args.vararg.arg)
+    if fdef.args.kwarg:
+        params.add(fdef.args.kwarg.arg)
+    out = []
+    for n in ast.walk(fdef):
+        if isinstance(n, ast.Name) and isinstance(n.ctx, (ast.Store, ast.Del)) and n.id not in params and n.id not in out:
+            out.append(n.id)
+        elif isinstance(n, (ast.FunctionDef, ast.AsyncFunctionDef)) and n is not fdef and n.name not in out:
+            out.append(n.name)
+        elif isinstance(n, ast.ExceptHandler) and n.name and n.name not in out:
+            out.append(n.name)
+    return out
+
+
+class _Renamer(ast.NodeTransformer):
+    def __init__(self, mp):
+        self.mp = mp
+
+    def visit_Name(self, n):
+        if n.id in self.mp:
+            return ast.copy_location(ast.Name(id=self.mp[n.id], ctx=n.ctx), n)
+        return n
+
+    def visit_FunctionDef(self, n):
+        self.generic_visit(n)
+        if n.name in self.mp:
+            n.name = self.mp[n.name]
+        return n
+
+    def visit_ExceptHandler(self, n):
+        self.generic_visit(n)
+        if n.name in self.mp:
+            n.name = self.mp[n.name]
+        return n
+
+
+def _canonical(fdef):
+    import copy
+    names = _bound_names(fdef)
+    mp = {nm: 'v!%d' % i for i, nm in enumerate(names)}
+    f2 = _Renamer(mp).visit(copy.deepcopy(fdef))
+    body = strip_doc(f2.body)
+    return names, hashlib.sha256(''.join(ast.dump(b) for b in body).encode()).hexdigest()[:20]
+
+
+def baseline_names():
+    global _names
+    if _names is None:
+        try:
+            _names = json.load(open(NAMES_FILE))
+        except (OSError, ValueError):
+            _names = {}
+    return _names
+
+
+def record_names(modname, qual, fdef):
+    names, h = _canonical(fdef)
+    d = baseline_names()
+    d['%s:%s' % (modname, qual)] = dict(names=names, canon=h)
+    os.makedirs(os.path.dirname(NAMES_FILE), exist_ok=True)
+    json.dump(d, open(NAMES_FILE, 'w'), indent=1, sort_keys=True)
+
+
+def restore_names(modname, qual, fdef):
+    """if fdef differs from the locked baseline only by a renaming of locals, rename them back (in place); returns the map used"""
+    base = baseline_names().get('%s:%s' % (modname, qual))
+    if not base:
+        return {}
+    names, h = _canonical(fdef)
+    if h != base['canon'] or names == base['names'] or len(names) != len(base['names']):
+        return {}
+    mp = {new: old for new, old in zip(names, base['names']) if new != old}
+    if set(mp.values()) & (set(names) - set(mp)):       # a baseline name is used for something else now
+        return {}
+    _Renamer(mp).visit(fdef)
+    ast.fix_missing_locations(fdef)
+    return mp
